@@ -234,6 +234,7 @@ func init() {
 		c.R.Cov["length_bombs"] = bombs
 		// (iii) nesting depth, in child processes
 		depthChecks(c)
+		stormChecks(c, have)
 		c.R.AddCount("distinct_nontrivial", int64(cases))
 		c.R.Cov["rule"] = "evaluations = Unmarshal calls on model-enumerated byte strings, fault-injected valid streams and length bombs; each under recover with post-operations"
 	}})
@@ -315,6 +316,38 @@ func depthChecks(c *Ctx) {
 		}
 	}
 	c.R.Cov["depth_probes"] = n
+	c.R.AddCount("evaluations", int64(n))
+}
+
+// stormChecks: concurrent decodes of different inputs into different messages, one child
+// process per type (a runtime fatal error -- e.g. concurrent map writes in state the generated
+// code keeps between calls -- kills the process and cannot be recovered).
+func stormChecks(c *Ctx, types []string) {
+	n := 0
+	for _, t := range types {
+		out, err := c.S.HRun(10*time.Minute, "storm", "--type", t, "--n", fmt.Sprint(c.pick(150, 1500)), "--k", "8", "--seed", fmt.Sprint(c.Seed))
+		if err != nil {
+			c.R.Violate("concurrent:process-died", fmt.Sprintf("type=%s: concurrent decodes of distinct inputs into distinct messages killed the process: %v: %s", t, err, trunc(lastLines(out, 4), 500)),
+				map[string]any{"engine": "storm", "type": t})
+			continue
+		}
+		var r struct {
+			Storm   bool
+			Decodes int64
+			Bad     int64
+			Note    string
+		}
+		if e := json.Unmarshal([]byte(lastLines(out, 1)), &r); e != nil || !r.Storm {
+			c.R.InternalErr("storm: bad output %q", trunc(out, 300))
+			continue
+		}
+		n += int(r.Decodes)
+		if r.Bad > 0 {
+			c.R.Violate("concurrent:result", fmt.Sprintf("type=%s: %d of %d concurrent decodes differ from the sequential reference decode: %s", t, r.Bad, r.Decodes, r.Note),
+				map[string]any{"engine": "storm", "type": t})
+		}
+	}
+	c.R.Cov["concurrent_decodes"] = n
 	c.R.AddCount("evaluations", int64(n))
 }
 
